@@ -11,6 +11,7 @@ pub mod refs;
 pub mod report;
 pub mod rng;
 pub mod server;
+pub mod session;
 pub mod tls;
 pub mod transport;
 
